@@ -4,6 +4,6 @@
 #include "bitserializer/msgpack_archive.h"
 namespace mps {
 using namespace mpc;
-typedef CMsgPackReadArrayScope<IMsgPackReader> ArrScope;
-typedef CMsgPackReadObjectScope<IMsgPackReader> ObjScope;
+typedef CMsgPackReadArrayScope<CMsgPackStringReader> ArrScope;      // the reader class is final: calls are direct (no virtual dispatch over both reader classes)
+typedef CMsgPackReadObjectScope<CMsgPackStringReader> ObjScope;
 }
